@@ -15,7 +15,8 @@
        nothing is created, changed, re-moded, or removed there).  The output directory may already contain
        symbolic links to anywhere (planted by an earlier entry, an earlier run, or anybody else) and hard
        links among its own files; entries beneath such links are refused, a link at the destination itself is
-       replaced, never followed (also not by chmod: W3).
+       replaced, never followed (also not by chmod: W3, nor by the extended attributes, which xattr::set puts on
+       the object itself for entries of every kind: C09_xattr_not_through_link).
      * C09_hardlinks_stay_inside: after the extraction no inode has a name inside and a name outside the
        output directory (the W2 escape pulled an outside file IN); C09_hardlink_source_literal: the source the
        repaired code hands to link(2) resolves to its literal path below the output directory.
@@ -41,7 +42,8 @@
        dangling link, hard links) is extracted entirely below the output directory, and six archives that try
        to go through planted / pre-existing links or to link an outside file in are refused without a trace.
    Outside the model: the kernel's actual path resolution (validated by the differential runs of props/C09.py
-   only), ownership (chown follows the same path as chmod in the code), ACLs, races with a concurrent writer
+   only), ownership (chown follows the same path as chmod in the code), ACLs, extended attributes of directories
+   (set on the directory itself, not observed by the model), races with a concurrent writer
    between the check and the use (the check is not atomic with the call). *)
 From PNA Require Import Base Name Fs Extract ExtractRun BaseFacts NameFacts ExtractFacts ConfineFacts.
 Open Scope N_scope.
@@ -194,6 +196,16 @@ Theorem C09_guarded_refuses :
    nget (names (extract_all guarded_opts w_out w2 w_fs0)) [lit "S"; lit "out"; lit "sub"; lit "hl"] = None).
 Proof. exact (conj guarded_refuses_w1 guarded_refuses_w2). Qed.
 Print Assumptions C09_guarded_refuses.
+
+(* --keep-xattr on a symbolic-link entry carrying user.* attributes: lsetxattr fails (EPERM) on the link that was
+   just made, nothing it points to is touched *)
+Theorem C09_xattr_not_through_link :
+  snd (extract_run over_opts w_out w_xattr_link w_fs1) = false /\
+  observe (extract_all over_opts w_out w_xattr_link w_fs1) [lit "S"; lit "out"; lit "lx"] = OLink (lit "../elsewhere/victim") /\
+  observe (extract_all over_opts w_out w_xattr_link w_fs1) [lit "S"; lit "elsewhere"; lit "victim"]
+    = observe w_fs1 [lit "S"; lit "elsewhere"; lit "victim"].
+Proof. exact xattr_not_through_link. Qed.
+Print Assumptions C09_xattr_not_through_link.
 
 (* the premises of the confinement theorems are met by a state whose output directory already holds links to
    the outside, and by hostile archives: one accepted (everything lands below out), six refused without a trace *)
